@@ -7,7 +7,7 @@ import time
 
 VERIF = os.path.dirname(os.path.dirname(os.path.abspath(__file__)))
 TARGET = os.path.join(VERIF, 'build', 'finder-target')
-SUPPORTED = {'C15', 'C06', 'C11', 'C04'}
+SUPPORTED = {'C15', 'C06', 'C11', 'C04', 'C05'}
 
 
 def _env():
@@ -46,13 +46,20 @@ def _run(binp, args, timeout):
     return json.loads(lines[-1])
 
 
+def known_classes(pid):
+    p = os.path.join(VERIF, 'known_findings.json')
+    if not os.path.exists(p):
+        return []
+    return [k['class'] for k in json.load(open(p)).get('findings', []) if k['property'] == pid and k.get('status', 'open') == 'open' and k.get('class')]
+
+
 def find(pid, seed, budget, repo, failure):
     if pid not in SUPPORTED:
         return dict(found=False, evaluations=0, note='no finder for this property')
     binp, err = build(repo)
     if not binp:
         return dict(found=False, evaluations=0, error='finder build failed: ' + err)
-    return _run(binp, [pid, 'find', str(seed), str(budget)], budget + 60)
+    return _run(binp, [pid, 'find', str(seed), str(budget)] + known_classes(pid), budget + 60)
 
 
 def replay(pid, path, repo):
